@@ -132,7 +132,7 @@ def check_c20(tier, seed):
     t0 = time.time()
     rng = random.Random(seed + 20)
     consts = dict(W3C_CONST)
-    consts.update({"MaxLen": 4 if tier == "quick" else 5,
+    consts.update({"MaxLen": 4 if tier == "quick" else 6,
                    "Classes": "{1,2,3,4,5,6,7,8,9,10,11,12,13,14}" if tier == "quick" else "{1,2,3,4,5,6,7,8,9,10,11,12,13,14,15}"})
     model, states, cex = run_model("mc/MC_W3C.tla", "WSpec", consts, ["Inv_C20"], 900 if tier == "quick" else 3000, want=("str",),
                                    dump=(tier == "quick"))
@@ -1000,7 +1000,7 @@ def check_c16(tier, seed):
     quick = tier == "quick"
     rng = random.Random(seed + 16)
     invs = ["Inv_Atomic", "Inv_Done", "Inv_FailPos"]
-    model, states, cex = run_model("mc/MC_Bulk.tla", "MSpec", {"FoldMap": "<- Fold", "MaxRows": 2 if quick else 3}, invs,
+    model, states, cex = run_model("mc/MC_Bulk.tla", "MSpec", {"FoldMap": "<- Fold", "MaxRows": 2 if quick else 4}, invs,
                                    900 if quick else 3400, want=("pc", "job"), dump=quick)
     # vacuity: every fault position must be reachable in the model
     reach = []
